@@ -116,13 +116,14 @@ Proof.
         -- apply IH'. discriminate.
 Qed.
 
-Definition sym_text (o : op) : option str :=
+(* the spellings the scanner reads as each symbolic operator ([] = the operator is a keyword) *)
+Definition sym_texts (o : op) : list str :=
   match o with
-  | OEq => Some [61] | ONeq => Some [33; 61] | OEqRegex => Some [61; 126] | ONeqRegex => Some [33; 126]
-  | OLt => Some [60] | OLte => Some [60; 61] | OGt => Some [62] | OGte => Some [62; 61]
-  | OAdd => Some [43] | OSub => Some [45] | OMul => Some [42] | ODiv => Some [47] | OMod => Some [37]
-  | OBitAnd => Some [38] | OBitOr => Some [124] | OBitXor => Some [94]
-  | OOr | OAnd | OLike | OMatch | OMatchPhrase | OIpInRange => None
+  | OEq => [[61]] | ONeq => [[33; 61]; [60; 62]] | OEqRegex => [[61; 126]] | ONeqRegex => [[33; 126]]
+  | OLt => [[60]] | OLte => [[60; 61]] | OGt => [[62]] | OGte => [[62; 61]]
+  | OAdd => [[43]] | OSub => [[45]] | OMul => [[42]] | ODiv => [[47]] | OMod => [[37]]
+  | OBitAnd => [[38]] | OBitOr => [[124]] | OBitXor => [[94]]
+  | OOr | OAnd | OLike | OMatch | OMatchPhrase | OIpInRange => []
   end.
 
 Section Lex.
@@ -294,12 +295,12 @@ Qed.
 
 (* ------------------------------------------------------------------ symbolic operators *)
 
-Lemma lex_symop : forall o t rest st, sym_text o = Some t ->
+Lemma lex_symop : forall o t rest st, In t (sym_texts o) ->
   (o = ODiv -> delim_ctx (s_last st) (s_stk st) = false /\ div_after (s_prev st) = true) ->
   lexes (t ++ 32 :: rest) [TOp o] (32 :: rest) st.
 Proof.
   intros o t rest st Ht Hdiv.
-  destruct o; cbn [sym_text] in Ht; inversion Ht; subst t; clear Ht;
+  destruct o; cbn [sym_texts In] in Ht; repeat (destruct Ht as [Ht|Ht]); try contradiction; subst t;
     try (intros f Hf; destruct f as [|f]; [cbn [length] in Hf; lia|]; exists f;
          split; [cbn [length app] in Hf; cbn [length]; lia|]; reflexivity).
   (* division *)
